@@ -1,5 +1,5 @@
 CONSTANTS AccessSample = 0 RouteSample = 0 CredSample = 0
 INIT Init
 NEXT Next
-INVARIANTS HTTPandCONNECTagree NoAuthNoForward RejectHasNoHop LoopRefused ChallengeOnlyOn407 PositionIrrelevant FirstIsInFailSet
+INVARIANTS HTTPandCONNECTagree NoAuthNoForward RejectHasNoHop LoopRefused ChallengeOnlyOn407 PositionIrrelevant FirstIsInFailSet ClientAuthzWins ExactBeatsAll NoProxyNoProxyAuth
 CHECK_DEADLOCK FALSE
